@@ -142,6 +142,17 @@ Proof.
   intros Hi. apply in_map_iff in Hi as [z [Hz Hi]]. apply filter_In in Hi as [Hi _]. apply H1. rewrite <- Hz. now apply in_map.
 Qed.
 
+(* C06, merged listing, in one statement *)
+Theorem merged_listing lfi bfi :
+  NoDup (map fi_name (merge_dirs lfi bfi)) /\
+  (forall n, In n (map fi_name (merge_dirs lfi bfi)) <-> In n (map fi_name lfi) \/ In n (map fi_name bfi)) /\
+  (forall x, In x (merge_dirs lfi bfi) ->
+     (In (fi_name x) (map fi_name lfi) -> last_named x lfi) /\
+     (~ In (fi_name x) (map fi_name lfi) -> last_named x bfi)).
+Proof.
+  split; [apply merge_dirs_nodup|]. split; [intros n; apply merge_dirs_names | intros x; apply merge_dirs_overlay_wins].
+Qed.
+
 (* ---------------- paging ---------------- *)
 Lemma union_all_advances_fact : union_readdir_all_advances = 1.
 Proof. reflexivity. Qed.
@@ -195,6 +206,12 @@ Lemma pages_head c cs rest : 0 < c -> rest <> [] ->
 Proof. intros Hc Hr. cbn [pages]. destruct rest; [contradiction | reflexivity]. Qed.
 Lemma pages_eof cs : pages cs [] = map (fun _ => RInfos [] (Some (E KEOF))) cs.
 Proof. induction cs as [|c cs IH]; cbn [pages map]; [reflexivity | now rewrite IH]. Qed.
+
+Theorem pages_chunks cs rest : Forall (fun c => 0 < c) cs ->
+  concat (map infos_of (pages cs rest)) = firstn (Z.to_nat (zsum cs)) rest /\
+  (zlen rest <= zsum cs -> concat (map infos_of (pages cs rest)) = rest) /\
+  pages cs [] = map (fun _ => RInfos [] (Some (E KEOF))) cs.
+Proof. intros H. split; [now apply pages_concat|]. split; [now apply pages_cover | apply pages_eof]. Qed.
 
 Section Paging.
 Context {B L : Type} (bstep : B -> op -> B * res) (lstep : L -> op -> L * res).
